@@ -176,7 +176,7 @@ def gen_universe(rng, draft="2020", max_docs=3):
             ref = rng.choice(["#nosuch", "#/" + defs_kw + "/nosuch", "#/" + defs_kw, "nosuch.json", "#/allOf/0", "#/%zz", "#bad anchor",
                               "#/not", "#/if", "#/additionalProperties", "#/contains", "#/properties", "#/title", "#/required/0",
                               "#/" + defs_kw + "/", "#/properties/p0/$ref", "#/allOf/+0", "#/allOf/-0", "#/allOf/00", "#/allOf/1",
-                              "#/allOf/-", "#/allOf/0/x"])
+                              "#/allOf/-", "#/allOf/0/x", "#/allOf/", "#/allOf//", "#/allOf/18446744073709551616"])
             dangling = True
             props.kvs.append(("p%d" % i, Obj([("$ref", ref)])))
             expect_targets.append(None)
@@ -207,6 +207,11 @@ def gen_universe(rng, draft="2020", max_docs=3):
                 ref = relativize(rng, referrer_base, ru) + frag
             else:
                 ref = ru + frag
+                if "://" in ru and rng.random() < 0.25:
+                    # an absolute reference is normalised too (RFC 3986 5.2.4): the same URI spelled with dot segments
+                    head, _, last = ru.rpartition("/")
+                    if head.count("/") >= 2:
+                        ref = head + rng.choice(["/./", "/zz/../", "/./zz/.././"]) + last + frag
         if t.embedded and t.doc != -1:
             d9 = True     # embedded resource of a loaded document addressed by its own URI
         props.kvs.append(("p%d" % i, Obj([("$ref", ref)])))
